@@ -25,6 +25,7 @@ Dependencies replaced by their assumed contracts (DESIGN 2.6), by assignment int
     are replaced by arbitrary non-negative flows with the same per-chemical totals (and arbitrary T for vle);
   * pure-component models -> A-models, temperature solves -> A-root (`W.stub_thermo`) where an energy balance runs.
 """
+import os
 import sys
 import warnings
 import numpy as np
@@ -32,6 +33,9 @@ import thermosteam as tmo
 from thermosteam.exceptions import InfeasibleRegion
 from engine.api import group
 from engine.sx import tmo_world as W
+
+# nonlinear VCs (rational functions of phi and K): a fresh one-shot solver per clause first (engine opt-in, see sym.Ctx.prove)
+os.environ.setdefault('VERIF_PROVE_FRESH_MS', '5000')
 
 sep = sys.modules['thermosteam.separations']
 
@@ -79,22 +83,54 @@ def _present(pkg, kind, mode):
     return p
 
 
+# Readers of the dense image.  They go through `dct.get(i, 0.)` for every position, which observes the value without
+# asking "is it stored" -- no presence fork on the contract level of the kernels (l0 groups), same values on the real ones.
+
+def _dense(sv):
+    return [sv.dct.get(i, 0.) for i in range(sv.size)]
+
+
+def _tot(s):
+    """{CAS: total molar flow over the phases}."""
+    CASs = s.chemicals.CASs
+    out = {c: 0. for c in CASs}
+    for ph, sv in W.rows_of(s):
+        for c, v in zip(CASs, _dense(sv)):
+            out[c] = out[c] + v
+    return out
+
+
+def _row(s, phase):
+    CASs = s.chemicals.CASs
+    out = {c: 0. for c in CASs}
+    for ph, sv in W.rows_of(s):
+        if ph == phase:
+            for c, v in zip(CASs, _dense(sv)):
+                out[c] = out[c] + v
+    return out
+
+
 def _nonneg(w, *streams):
     cs = []
     for s in streams:
         for ph, sv in W.rows_of(s):
-            for i, v in sv.dct.items():
-                cs.append(w.ge(v, 0.))
+            for v in _dense(sv):
+                if not (v.__class__ in (int, float) and v == 0): cs.append(w.ge(v, 0.))
     return w.And(*cs)
 
 
 def _state(s):
-    """Material snapshot plus T and P."""
-    return W.snapshot(s), s.T, s.P
+    """Material state (class, phases, every entry of every row) plus T and P."""
+    rows = W.rows_of(s)
+    return (type(s).__name__, tuple(ph for ph, _ in rows), [_dense(sv) for _, sv in rows]), s.T, s.P
 
 
 def _same_state(w, st, s):
-    return w.And(W.same_snapshot(w, st[0], W.snapshot(s)), w.eq(s.T, st[1]), w.eq(s.P, st[2]))
+    (cls, phases, rows), T, P = st
+    (cls2, phases2, rows2), T2, P2 = _state(s)
+    if cls != cls2 or phases != phases2:
+        return w.And(False)
+    return w.And(w.eq(T2, T), w.eq(P2, P), *[w.eq(a, b) for r, r2 in zip(rows, rows2) for a, b in zip(r, r2)])
 
 
 def _arr(w, vals):
@@ -102,11 +138,41 @@ def _arr(w, vals):
 
 
 class _Stubs:
-    """Stub packages per path (A-models, A-root), one per package name."""
-    def __init__(self, w): self.w = w; self.d = {}
+    """
+    Stub packages per path, one per package name.  The material clauses of C20 must hold whatever the energy side
+    does, so the energy models are *havoc'ed* (a superset of A-models + A-root, and much cheaper for the solver than
+    uninterpreted models with a root assumption): every evaluation of the molar enthalpy of a mixture returns a fresh
+    real, every temperature solve returns a fresh positive real.  The enthalpy balance itself is C02's business.
+    """
+    def __init__(self, w): self.w = w; self.d = {}; self.n = 0
+
     def __call__(self, pkg):
         if pkg not in self.d:
-            self.d[pkg] = W.stub_thermo(self.w, PKG[pkg])
+            th = W.stub_thermo(self.w, PKG[pkg])
+            stubs, w = self, self.w
+            base = type(th.mixture)
+
+            def fresh(kind, **kw):
+                stubs.n += 1
+                return w.real(f'havoc{stubs.n}.{kind}', **kw)
+
+            def H(self, phase, mol, T, P):
+                return fresh('h')
+
+            def xH(self, phase_mol, T, P):
+                tuple(phase_mol)
+                return fresh('xh')
+
+            def solve_T_at_HP(self, phase, mol, H, T_guess, P):
+                return fresh('T_at_HP', lo=0., lo_strict=True)
+
+            def xsolve_T_at_HP(self, phase_mol, H, T_guess, P):
+                tuple(phase_mol)
+                return fresh('xT_at_HP', lo=0., lo_strict=True)
+
+            th.mixture.__class__ = type('HavocEnergyMixture', (base,), {
+                '__slots__': (), 'H': H, 'xH': xH, 'solve_T_at_HP': solve_T_at_HP, 'xsolve_T_at_HP': xsolve_T_at_HP})
+            self.d[pkg] = th
         return self.d[pkg]
 
 
@@ -170,7 +236,7 @@ def _inlet_world(w, cfg, th, top_pkg='P3'):
 def _sum_inlets(top, inlets):
     expected = {c: 0. for c in top.chemicals.CASs}
     for s, _ in inlets:
-        for cas, v in W.total_by_CAS(s).items():
+        for cas, v in _tot(s).items():
             expected[cas] = expected[cas] + v
     return expected
 
@@ -188,7 +254,7 @@ def mix_and_split(w, cfg):
     split0 = split.copy() if cfg['split'] == 'vector' else split
     expected = _sum_inlets(top, inlets)
     sep.mix_and_split([s for s, _ in inlets], top, bottom, split)
-    t, b = W.total_by_CAS(top), W.total_by_CAS(bottom)
+    t, b = _tot(top), _tot(bottom)
     for cas in top.chemicals.CASs:
         w.ensure(f'top[{cas}] + bottom[{cas}] = sum of inlets', w.eq(t[cas] + b.get(cas, 0.), expected[cas]))
         w.ensure(f'top[{cas}] = split * mixed feed', w.eq(t[cas], xs[cas] * expected[cas]))
@@ -242,7 +308,7 @@ def _moisture_present(pkg, kind, ID, who):
 def _mass(s):
     """{CAS: mass flow} and the total, from the raw molar rows and the package's molecular weights."""
     MW = dict(zip(s.chemicals.CASs, [float(i) for i in s.chemicals.MW]))
-    t = W.total_by_CAS(s)
+    t = _tot(s)
     m = {c: MW[c] * t[c] for c in t}
     tot = 0.
     for c in m: tot = tot + m[c]
@@ -272,7 +338,7 @@ def _moisture_clauses(w, cfg, ret, perm, pre, call, prefix=''):
                  w.And(strict is not False, w.lt(avail, need)))
         w.canary(prefix + 'canary: InfeasibleRegion with sufficient moisture', w.ge(avail, need))
         return
-    r, p = W.total_by_CAS(ret), W.total_by_CAS(perm)
+    r, p = _tot(ret), _tot(perm)
     for cas in r:
         w.ensure(prefix + f'retentate[{cas}] + permeate[{cas}] conserved', w.eq(r[cas] + p.get(cas, 0.), pre[cas]))
         if cas != mcas:
@@ -299,7 +365,7 @@ def adjust_moisture_content(w, cfg):
     ret, _ = W.make_stream(w, 'ret', PKG[pkg], KINDS[kind], present=_moisture_present(pkg, kind, ID, 'ret'))
     perm, _ = W.make_stream(w, 'perm', PKG[pkg], KINDS[kind], present=_moisture_present(pkg, kind, ID, 'perm'))
     cfg['_mc'] = mc = w.real('moisture_content', lo=0, hi=0.95, lo_strict=True, hi_strict=True)
-    cfg['_pre_ret'], cfg['_pre_perm'] = W.total_by_CAS(ret), W.total_by_CAS(perm)
+    cfg['_pre_ret'], cfg['_pre_perm'] = _tot(ret), _tot(perm)
     pre = {c: cfg['_pre_ret'][c] + cfg['_pre_perm'][c] for c in cfg['_pre_ret']}
     kw = {} if cfg['strict'] is None else {'strict': cfg['strict']}
     _moisture_clauses(w, cfg, ret, perm, pre,
@@ -379,27 +445,282 @@ def phase_split(w, cfg):
     pre = _state(feed)
     pre_outs = [_state(o) for o in outs]
     phases = _rows(kind)
-    rows = {ph: W.row_by_CAS(feed, ph) for ph in phases}
+    rows = {ph: _row(feed, ph) for ph in phases}
     try:
         sep.phase_split(feed, outs)
     except RuntimeError:
         w.ensure('RuntimeError only when the number of outlets differs from the number of phases', len(outs) != len(phases))
         w.ensure('nothing changed when the call is refused',
                  w.And(_same_state(w, pre, feed), *[_same_state(w, st, o) for st, o in zip(pre_outs, outs)]))
-        w.canary('canary: refused call emptied outlet 0', w.eq(W.total_by_CAS(outs[0])[WATER], 0.))
+        w.canary('canary: refused call emptied outlet 0', w.eq(_tot(outs[0])[WATER], 0.))
         return
     w.ensure('normal return only with one outlet per phase', len(outs) == len(phases))
     w.ensure('feed unchanged (flows, phases, T, P)', _same_state(w, pre, feed))
     total = {c: 0. for c in feed.chemicals.CASs}
     for n, (ph, o) in enumerate(zip(phases, outs)):
-        got = W.total_by_CAS(o)
+        got = _tot(o)
         for cas, v in got.items():
             w.ensure(f'outlet {n}[{cas}] = feed[{ph},{cas}]', w.eq(v, rows[ph].get(cas, 0.)))
             if cas in total: total[cas] = total[cas] + v
         w.ensure(f'outlet {n} is a single-phase stream in phase {ph}', (not isinstance(o, tmo.MultiStream)) and o.phase == ph)
         w.ensure(f'outlet {n} rep_ok, no negative flows', w.And(W.rep_ok(w, o), _nonneg(w, o)))
-    ft = W.total_by_CAS(feed)
+    ft = _tot(feed)
     for cas in total:
         w.ensure(f'sum of outlets[{cas}] = feed', w.eq(total[cas], ft[cas]))
     c0 = feed.chemicals.CASs[0]
-    w.canary('canary: outlet 0 = feed phase 0 + 1', w.eq(W.total_by_CAS(outs[0])[c0], rows[phases[0]][c0] + 1))
+    w.canary('canary: outlet 0 = feed phase 0 + 1', w.eq(_tot(outs[0])[c0], rows[phases[0]][c0] + 1))
+
+
+# --------------------------------------------------------------------------- dependency stubs (assumed contracts)
+
+class _rebound:
+    """Assign names in the namespace of thermosteam.separations for the duration of a body; always restored."""
+    def __init__(self, **names): self.names = names; self.saved = {}
+    def __enter__(self):
+        for k, v in self.names.items():
+            self.saved[k] = sep.__dict__[k]
+            sep.__dict__[k] = v
+        return self
+    def __exit__(self, *exc):
+        for k, v in self.saved.items(): sep.__dict__[k] = v
+        return False
+
+
+def _phi_stub(w, calls):
+    """`compute_phase_fraction` -> any real number (fresh leaf); its array arguments are recorded for the frame."""
+    def compute_phase_fraction(zs, Ks, guess=None, za=0., zb=0.):
+        phi = w.real(f'phi{len(calls)}')
+        calls.append({'zs': list(zs), 'Ks': list(Ks), 'guess': guess, 'za': za, 'zb': zb, 'phi': phi})
+        return phi
+    return compute_phase_fraction
+
+
+class _Reports:
+    """Collects the RuntimeWarnings a helper issues (the non-strict way of reporting infeasibility)."""
+    def __enter__(self):
+        self.cm = warnings.catch_warnings(record=True)
+        self.log = self.cm.__enter__()
+        warnings.simplefilter('always')
+        return self
+    def __exit__(self, *exc):
+        self.cm.__exit__(*exc)
+        return False
+    @property
+    def n(self): return sum(1 for i in self.log if issubclass(i.category, RuntimeWarning))
+
+
+# --------------------------------------------------------------------------- handle_infeasible_flow_rates / check_partition_infeasibility
+
+def hif_configs(tier):
+    out = []
+    for n in ([1, 2, 3] if tier == 'quick' else [1, 2, 3, 4]):
+        for strict in [False, True]:
+            out.append({'name': f'handle;N={n};strict={strict}', 'what': 'handle', 'N': n, 'strict': strict})
+    for idx in [[], [0], [1], [0, 2], [2, 3]]:
+        for strict in [False, True]:
+            out.append({'name': f'check;index={idx};strict={strict}', 'what': 'check', 'index': idx, 'strict': strict})
+    return out
+
+
+@group('C20/handle_infeasible_flow_rates', configs=hif_configs,
+       functions=['thermosteam.separations:handle_infeasible_flow_rates',
+                  'thermosteam.separations:check_partition_infeasibility'])
+def handle_infeasible_flow_rates(w, cfg):
+    """Flows are clipped into [0, feed]; infeasibility is reported (InfeasibleRegion when strict, else a warning)
+    exactly when some flow was outside -- whichever position it has."""
+    strict = cfg['strict']
+    if cfg['what'] == 'check':
+        index = np.array(cfg['index'], dtype=int)
+        anchor = w.real('anchor')     # the structure is the input here; one leaf keeps the canary refutable by a model
+        raised = False
+        with _Reports() as rep:
+            try:
+                sep.check_partition_infeasibility(index, strict)
+            except InfeasibleRegion:
+                raised = True
+        infeasible = len(cfg['index']) > 0
+        w.ensure('InfeasibleRegion iff strict and some index is infeasible', raised == (strict and infeasible))
+        w.ensure('warning iff not strict and some index is infeasible', (rep.n > 0) == ((not strict) and infeasible))
+        w.ensure('index array unchanged', list(index) == cfg['index'])
+        w.canary('canary: anchor = anchor + 1', w.eq(anchor, anchor + 1))
+        return
+    N = cfg['N']
+    m0 = [w.real(f'mol{i}') for i in range(N)]
+    x0 = [w.real(f'maxmol{i}', lo=0) for i in range(N)]
+    mol, maxmol = _arr(w, m0), _arr(w, x0)
+    outside = w.Or(*[w.Or(w.lt(m, 0.), w.gt(m, x)) for m, x in zip(m0, x0)])
+    with _Reports() as rep:
+        try:
+            sep.handle_infeasible_flow_rates(mol, maxmol, strict)
+        except InfeasibleRegion:
+            w.ensure('InfeasibleRegion only when strict and some flow is outside [0, feed]', w.And(strict, outside))
+            w.ensure('feed array unchanged', w.all_eq(list(maxmol), x0))
+            w.canary('canary: InfeasibleRegion although every flow is inside', w.Not(outside))
+            return
+    w.ensure('normal return when strict only if every flow is inside [0, feed]', w.Implies(outside, not strict))
+    w.ensure('infeasibility reported by a warning iff some flow is outside [0, feed]',
+             w.And(w.Implies(outside, rep.n > 0), w.Implies(w.Not(outside), rep.n == 0)))
+    for i in range(N):
+        w.ensure(f'mol[{i}] clipped into [0, feed]',
+                 w.And(w.Implies(w.lt(m0[i], 0.), w.eq(mol[i], 0.)),
+                       w.Implies(w.gt(m0[i], x0[i]), w.eq(mol[i], x0[i])),
+                       w.Implies(w.And(w.ge(m0[i], 0.), w.le(m0[i], x0[i])), w.eq(mol[i], m0[i]))))
+        w.ensure(f'0 <= mol[{i}] <= feed[{i}]', w.And(w.ge(mol[i], 0.), w.le(mol[i], x0[i])))
+    w.ensure('feed array unchanged', w.all_eq(list(maxmol), x0))
+    w.canary('canary: mol unchanged', w.all_eq(list(mol), m0))
+
+
+# --------------------------------------------------------------------------- partition / phase_fraction
+
+def _part_fams(tier):
+    quick = tier == 'quick'
+    # (package, IDs in equilibrium, top_chemicals, bottom_chemicals)
+    fams = [('P3', ['Water', 'Ethanol'], None, None),
+            ('P4', ['Water', 'Ethanol'], ['Octane'], ['Methanol']),
+            ('P3', ['Ethanol', 'Water'], None, 'Octane'),          # a plain string, as in the doctest
+            ('P3', ['Water', 'Ethanol', 'Octane'], None, None)]
+    if not quick:
+        fams += [('P4', ['Methanol', 'Water'], ['Octane', 'Ethanol'], None),
+                 ('P4', ['Water', 'Ethanol', 'Octane'], None, ['Methanol']),
+                 ('Q4', ['Water', 'Ethanol'], ['Methanol'], 'Octane'),
+                 ('P2', ['Water', 'Ethanol'], None, None),
+                 ('P4', ['Octane', 'Ethanol'], None, None)]
+    return fams
+
+
+def part_configs(tier):
+    out = []
+    for pkg, IDs, tc, bc in _part_fams(tier):
+        for prior in ['eq', 'other']:
+            for strict in [False, True]:
+                if strict and prior == 'other' and tier == 'quick': continue
+                out.append({'name': f'pkg={pkg};IDs={"+".join(IDs)};top={tc};bottom={bc};prior={prior};strict={strict}',
+                            'pkg': pkg, 'IDs': IDs, 'tc': tc, 'bc': bc, 'prior': prior, 'strict': strict})
+    return out
+
+
+def _as_list(x):
+    return [] if not x else ([x] if isinstance(x, str) else list(x))
+
+
+def _part_world(w, cfg):
+    pkg = cfg['pkg']
+    IDs = cfg['IDs']
+    allIDs = PKG[pkg]
+    p = {'default': 'maybe', ('l', IDs[0]): 'pos'}       # F_mol > 0: the feed holds some of the first chemical in equilibrium
+    feed, _ = W.make_stream(w, 'feed', allIDs, 'l', present=p)
+    others = [i for i in allIDs if i not in IDs]
+    # prior contents of the outlets: something among the chemicals in equilibrium / among the others
+    pid = IDs[-1] if (cfg.get('prior', 'eq') == 'eq' or not others) else others[0]
+    top, _ = W.make_stream(w, 'top', allIDs, 'l', present={'default': 'zero', ('l', allIDs[0]): 'pos'})
+    bottom, _ = W.make_stream(w, 'bot', allIDs, 'l', present={'default': 'zero', ('l', pid): 'pos'})
+    K = [w.real(f'K.{i}', lo=1e-3, hi=1e3) for i in IDs]
+    return feed, top, bottom, K
+
+
+def _forced(cfg):
+    tc, bc = cfg['tc'], cfg['bc']
+    return (tuple(tc) if isinstance(tc, list) else tc), (tuple(bc) if isinstance(bc, list) else bc)
+
+
+@group('C20/partition', configs=part_configs,
+       functions=['thermosteam.separations:partition', 'thermosteam.separations:handle_infeasible_flow_rates',
+                  'thermosteam.separations:check_partition_infeasibility'],
+       assumptions=['A-phase-fraction-havoc'], l0=True)
+def partition(w, cfg):
+    """top + bottom = feed for every chemical whatever the outlets held before and whatever phi the solver returns;
+    no negative flows; flow ratios top/bottom reproduce K up to one common factor; forced chemicals go where told."""
+    W.reset_caches()
+    feed, top, bottom, K = _part_world(w, cfg)
+    IDs = tuple(cfg['IDs'])
+    tc, bc = _forced(cfg)
+    Karr = _arr(w, K)
+    pre = _state(feed)
+    f = _tot(feed)
+    calls = []
+    with _rebound(compute_phase_fraction=_phi_stub(w, calls)), _Reports() as rep:
+        try:
+            phi = sep.partition(feed, top, bottom, IDs, Karr, top_chemicals=tc, bottom_chemicals=bc, strict=cfg['strict'])
+        except InfeasibleRegion:
+            # K > 0 and 0 < phi < 1 give bottom flows inside [0, feed]: there is nothing infeasible to report
+            w.ensure('InfeasibleRegion never raised for positive partition coefficients', False)
+            return
+    t, b = _tot(top), _tot(bottom)
+    cas = {i: W.chemical(i).CAS for i in PKG[cfg['pkg']]}
+    for ID, c in cas.items():
+        w.ensure(f'top[{ID}] + bottom[{ID}] = feed', w.eq(t[c] + b[c], f[c]))
+    w.ensure('no negative flows', _nonneg(w, top, bottom))
+    w.ensure('no infeasibility reported', rep.n == 0)
+    for n, i in enumerate(IDs):
+        for m, j in enumerate(IDs):
+            if m > n:
+                w.ensure(f'K reproduced up to a common factor [{i},{j}]: top_i/bottom_i : top_j/bottom_j = K_i : K_j',
+                         w.eq(t[cas[i]] * b[cas[j]] * K[m], t[cas[j]] * b[cas[i]] * K[n]))
+    for ID in _as_list(tc):
+        w.ensure(f'top chemical [{ID}] entirely in top', w.And(w.eq(t[cas[ID]], f[cas[ID]]), w.eq(b[cas[ID]], 0.)))
+    for ID in _as_list(bc):
+        w.ensure(f'bottom chemical [{ID}] entirely in bottom', w.And(w.eq(b[cas[ID]], f[cas[ID]]), w.eq(t[cas[ID]], 0.)))
+    for ID in cas:
+        if ID not in IDs and ID not in _as_list(tc) and ID not in _as_list(bc):
+            w.ensure(f'chemical not in equilibrium [{ID}] ends up in top', w.And(w.eq(t[cas[ID]], f[cas[ID]]), w.eq(b[cas[ID]], 0.)))
+    p0 = calls[0]['phi']
+    w.ensure('returned phase fraction is the solved one clipped into [0, 1]',
+             w.And(w.Implies(w.le(p0, 0.), w.eq(phi, 0.)), w.Implies(w.ge(p0, 1.), w.eq(phi, 1.)),
+                   w.Implies(w.And(w.gt(p0, 0.), w.lt(p0, 1.)), w.eq(phi, p0))))
+    w.ensure('feed unchanged (flows, phases, T, P)', _same_state(w, pre, feed))
+    w.ensure('K array unchanged', w.all_eq(list(Karr), K))
+    c0 = cas[IDs[0]]
+    w.canary('canary: top + bottom = feed + 1', w.eq(t[c0] + b[c0], f[c0] + 1))
+    w.canary('canary: everything in equilibrium goes to top', w.eq(b[c0], 0.))
+    w.note(phi=phi, top=t, bottom=b, feed=f)
+
+
+def pf_configs(tier):
+    return [{'name': f'pkg={pkg};IDs={"+".join(IDs)};top={tc};bottom={bc};strict={strict}', 'pkg': pkg, 'IDs': IDs, 'tc': tc,
+             'bc': bc, 'strict': strict} for pkg, IDs, tc, bc in _part_fams(tier) for strict in [False, True]]
+
+
+@group('C20/phase_fraction', configs=pf_configs,
+       functions=['thermosteam.separations:phase_fraction', 'thermosteam.separations:handle_infeasible_flow_rates'],
+       assumptions=['A-phase-fraction-havoc'], l0=True)
+def phase_fraction(w, cfg):
+    """Returns the solved fraction clipped into [0, 1]; the feed is only read; same solver problem as `partition`."""
+    W.reset_caches()
+    feed, top, bottom, K = _part_world(w, cfg)
+    IDs = tuple(cfg['IDs'])
+    tc, bc = _forced(cfg)
+    Karr = _arr(w, K)
+    pre = _state(feed)
+    calls = []
+    with _rebound(compute_phase_fraction=_phi_stub(w, calls)), _Reports() as rep:
+        try:
+            phi = sep.phase_fraction(feed, IDs, Karr, top_chemicals=tc, bottom_chemicals=bc, strict=cfg['strict'])
+        except InfeasibleRegion:
+            w.ensure('InfeasibleRegion never raised for positive partition coefficients', False)
+            return
+    p0 = calls[0]['phi']
+    w.ensure('returned phase fraction is the solved one clipped into [0, 1]',
+             w.And(w.Implies(w.le(p0, 0.), w.eq(phi, 0.)), w.Implies(w.ge(p0, 1.), w.eq(phi, 1.)),
+                   w.Implies(w.And(w.gt(p0, 0.), w.lt(p0, 1.)), w.eq(phi, p0))))
+    # the Rachford-Rice problem handed to the solver: fractions of the feed over equilibrium + forced chemicals
+    f = _tot(feed)
+    cas = {i: W.chemical(i).CAS for i in PKG[cfg['pkg']]}
+    Fa = w.total([f[cas[i]] for i in _as_list(tc)])
+    Fb = w.total([f[cas[i]] for i in _as_list(bc)])
+    F = w.total([f[cas[i]] for i in IDs]) + Fa + Fb
+    a = calls[0]
+    w.ensure('solver is given z = feed fractions, the K array, and the forced top/bottom fractions',
+             w.And(len(calls) == 1, len(a['zs']) == len(IDs), *[w.eq(z * F, f[cas[i]]) for z, i in zip(a['zs'], IDs)],
+                   w.all_eq(a['Ks'], K), w.eq(a['za'] * F, Fa), w.eq(a['zb'] * F, Fb)))
+    w.ensure('feed unchanged (flows, phases, T, P)', _same_state(w, pre, feed))
+    w.ensure('K array unchanged', w.all_eq(list(Karr), K))
+    w.ensure('no infeasibility reported', rep.n == 0)
+    w.canary('canary: phase fraction = solved + 1', w.eq(phi, p0 + 1))
+
+
+def _phi_stub_named(w, calls, name):
+    def compute_phase_fraction(zs, Ks, guess=None, za=0., zb=0.):
+        phi = w.real(f'{name}{len(calls)}')
+        calls.append({'zs': list(zs), 'Ks': list(Ks), 'guess': guess, 'za': za, 'zb': zb, 'phi': phi})
+        return phi
+    return compute_phase_fraction
